@@ -20,7 +20,7 @@ Proof. exact sheets_in_order_xlsx. Qed.
 
 Theorem C16_sheets_in_order_ods : forall c wb,
   ods_legal c wb = true ->
-  exists p, ods_parse_content (ods_events c wb) = Ok p /\ p_sheets p = wb_sheets wb.
+  exists p, ods_parse_content (ods_events c wb) = Ok p /\ p_sheets p = ow_metas wb.
 Proof. exact sheets_in_order_ods. Qed.
 
 (* xls: BoundSheet8 records in order (8- or 16-bit names, ANY value of the six unused upper bits of
@@ -90,9 +90,13 @@ Theorem C16_report_xlsx : forall c wb rjunk,
   Ok (mkParsed (wb_sheets wb) (xlsx_paths c wb) (wb_names wb) (wb_1904 wb)).
 Proof. exact xlsx_open_encode. Qed.
 
+(* ods: the workbook is the sheets in order, each with the names whose scope it is (stored in a
+   table:named-expressions element inside its table:table, anywhere among its children), and
+   the names whose scope is the document.  defined_names reports EVERY name, in document order:
+   [ow_all_names] = the names of each sheet where its table stands, then the global ones. *)
 Theorem C16_report_ods : forall c wb,
   ods_legal c wb = true ->
-  ods_parse_content (ods_events c wb) = Ok (mkParsed (wb_sheets wb) [] (wb_names wb) false).
+  ods_parse_content (ods_events c wb) = Ok (mkParsed (ow_metas wb) [] (ow_all_names wb) false).
 Proof. exact ods_parse_encode. Qed.
 
 (* the relationships part: any order, any junk, any prefix *)
@@ -110,7 +114,7 @@ Proof. exact defined_names_in_order_xlsx. Qed.
 
 Theorem C16_defined_names_in_order_ods : forall c wb,
   ods_legal c wb = true ->
-  exists p, ods_parse_content (ods_events c wb) = Ok p /\ p_names p = wb_names wb.
+  exists p, ods_parse_content (ods_events c wb) = Ok p /\ p_names p = ow_all_names wb.
 Proof. exact defined_names_in_order_ods. Qed.
 
 (* ---------- (3) the date-system flag reaches every DateTime cell of every sheet *)
@@ -214,10 +218,14 @@ Example C16_xls_nonvacuous :
   lbl_units (s_xlnm ++ [80; 114; 105; 110; 116; 95; 65; 114; 101; 97]) (mkLn false 33 0 1) = [6].
 Proof. exact xlsn_nonvacuous. Qed.
 
+(* sheet-scoped names on two of three sheets (first child of the table / last child), the same
+   name [110] once with sheet scope and once global: five names in document order *)
 Example C16_ods_nonvacuous :
   ods_legal ex_ods_c ex_ods_wb = true /\
   ods_parse_content (ods_events ex_ods_c ex_ods_wb) =
-  Ok (mkParsed (wb_sheets ex_ods_wb) [] (wb_names ex_ods_wb) false).
+  Ok (mkParsed (ow_metas ex_ods_wb) [] (ow_all_names ex_ods_wb) false) /\
+  ow_all_names ex_ods_wb = [([108; 49], [36; 66; 50]); ([110], [91; 46; 67; 51; 93]); ([108; 51], [36; 65; 49]);
+                            ([110], [36; 65]); ([109], [91; 46; 65; 49; 93])].
 Proof. exact ods_nonvacuous. Qed.
 
 Check C16_report_xlsx : forall c wb rjunk,
@@ -226,7 +234,7 @@ Check C16_report_xlsx : forall c wb rjunk,
   Ok (mkParsed (wb_sheets wb) (xlsx_paths c wb) (wb_names wb) (wb_1904 wb)).
 Check C16_report_ods : forall c wb,
   ods_legal c wb = true ->
-  ods_parse_content (ods_events c wb) = Ok (mkParsed (wb_sheets wb) [] (wb_names wb) false).
+  ods_parse_content (ods_events c wb) = Ok (mkParsed (ow_metas wb) [] (ow_all_names wb) false).
 Check C16_date_flag_reaches_cells_xlsx : forall c wb rjunk,
   xlsx_legal c wb = true -> forallb junk_ok_rels rjunk = true ->
   exists p, xlsx_open (rels_events [] rjunk (xc_rels c)) (xlsx_wb_events c wb) = Ok p /\
